@@ -320,6 +320,15 @@ func init() {
 		x, y := p.force(a[0].(Iface)), p.force(a[1].(Iface))
 		return sameObject(x.V, y.V), true
 	})
+	reg("Option", func(p *Path, _ *frame, _ *ssa.Function, a []Value) (Value, bool) {
+		switch a[0].(string) {
+		case "exact-small-floats":
+			p.exactSmallFloats = true
+		case "format-errors":
+			p.formatErrors = true
+		}
+		return nil, true
+	})
 	reg("Thorough", func(p *Path, _ *frame, _ *ssa.Function, _ []Value) (Value, bool) {
 		return p.E.Thorough, true
 	})
